@@ -14,6 +14,34 @@ CLAIMED = {
               "oracle (must-accept / must-reject / don't-care) runs on the implementation."),
         note="FloatHost abstract (graph recorded from CPython each run); host-parser leniency beyond the ASCII grammar is the don't-care zone; hook bodies modelled by hand",
         design="§6 C01"),
+    "C04": dict(
+        technique="Lean 4 proof (render/parse fixpoint per column type) + differential correspondence + fixpoint oracle on the implementation",
+        text=("Per-type Lean lemmas: an accepted text renders to a text that is accepted with the same value, contains no separator and uses the preferred null "
+              "spelling (int/uuid round trips proved; float and enum-vocabulary facts are explicit hypotheses, the latter discharged by decide on the regenerated "
+              "tables). The implementation is checked directly: parse -> render -> parse -> render on every accepted spelling of the type-directed pools and on whole lines."),
+        note="FloatHost laws assumed and checked on the run's graph; one known finding (single-element list of the null member); model hook bodies tied by correspondence",
+        design="§6 C04"),
+    "C05": dict(
+        technique="Lean 4 proof over regenerated scheme definitions (decide +kernel) + field-level non-exposure theorem + parse/writer oracle",
+        text=("decide-obligations over the generated definitions: the four public/masked layouts give each germline column a RequireNullValue redefinition of a maskable type and "
+              "omit the VCF-only columns; theorems: such a column's domain is exactly its null spelling and the operational model keeps no column object for any other text "
+              "(never exposed, non-interference). The implementation is exercised in 3 parse modes and through Strict writers (direct and sorting) with mutated, protected-class and generic columns."),
+        note="writer side relies on C06's check for arbitrary API records; record-level lifting of the field theorem is by correspondence",
+        design="§6 C05"),
+    "C08": dict(
+        technique="Lean 4 proof (total preorder of the key comparison, operator agreement, totality on well-formed records) + differential correspondence",
+        text=("Lean theorems on the model of SortOrderKey.compare / _CoordinateKey / _BarcodesAndCoordinateKey: keys built by one (order, contigs) from well-formed records always compare, "
+              "the comparison is reflexive, antisymmetric, transitive and total, the six total_ordering operators agree with it, it is the documented lexicographic order with None last, "
+              "numeric positions and contig rank, and a chromosome missing from the contig list is ValueError. Tied by comparing all six operators on typed records, scheme-less records and plain locatables."),
+        note="key construction and comparison bodies are hand-modelled; Python's str comparison is modelled as code-point lexicographic order",
+        design="§6 C08"),
+    "C15": dict(
+        technique="Lean 4 proof (invariant by induction over edit histories) + differential correspondence of edit histories + coherence oracle",
+        text=("The record model (name map + slot list with Python dict/list semantics) carries an invariant proved for the initial record and preserved by every set/add/delete in every addressing form; "
+              "failed operations leave the record unchanged. The model is tied to MafRecord by replaying random and (thorough) all short edit histories on both and comparing the full observation after every step; "
+              "the property's own coherence conditions are evaluated on the implementation through its public API."),
+        note="post-hoc mutation of stored column objects is outside the property; object identity is modelled by an oid field",
+        design="§6 C15"),
 }
 
 PENDING_REASON = "check not built yet in this round (planned, see DESIGN.md §6); not claimed until its check exists and passes on the unchanged tree"
